@@ -587,6 +587,13 @@ func (b *batchRun) prepValue() any {
 			b.reg.SetPayload(itemTok(i+1), l[i])
 		}
 		return l
+	case "u8s":
+		l := make([]prio, n)
+		for i := range l {
+			l[i] = prio(i + 1)
+			b.reg.SetPayload(itemTok(i+1), l[i])
+		}
+		return l
 	case "ints":
 		l := make([]int, n)
 		for i := range l {
